@@ -95,7 +95,7 @@ PROPS = {
         'thorough_seeds': 2,
     },
     'C12': {
-        'lean_modules': ['C12'],
+        'lean_modules': ['C12', 'C12l'],
         'engines': [('retry', 300, 2500), ('rhandle', 1, 1)],
         'rule': 'scripts of environment events (app requests before Connect / while connected / during an outage, dial results, CONNACK accepted with or without session / refused / never, peer close, inbound messages, Handle) with a per-packet fault plan (write failure, lost request, lost acknowledgement, silent) and a friendly tail; hand-written witnesses of the repaired defects first; all single- and double-fault plans over short histories in the thorough tier; non-trivial = the script reached at least one connection',
         'assumptions': ['one task of the RetryClient is one atomic model step (single task goroutine, one request outstanding at a time)',
@@ -114,7 +114,7 @@ PROPS = {
     },
     'C18': {
         'lean_modules': ['C18'],
-        'engines': [('retry', 300, 2500)],
+        'engines': [('retry', 300, 2500), ('ropts', 50, 500)],
         'rule': 'scripts of environment events (app requests before Connect / while connected / during an outage, dial results, CONNACK accepted with or without session / refused / never, peer close, inbound messages, Handle) with a per-packet fault plan (write failure, lost request, lost acknowledgement, silent) and a friendly tail; hand-written witnesses of the repaired defects first; all single- and double-fault plans over short histories in the thorough tier; non-trivial = the script reached at least one connection',
         'assumptions': ['one task of the RetryClient is one atomic model step (single task goroutine, one request outstanding at a time)',
                         'the transport either delivers a whole packet or fails the write; the broker conforms to MQTT 3.1.1 (Spec in Model/Retry: Broker)',
@@ -122,7 +122,8 @@ PROPS = {
         'thorough_seeds': 2,
     },
     'C13': {
-        'engines': [('ka', 150, 1500), ('kareconn', 6, 60)],
+        'lean_modules': ['C13', 'C13o'],
+        'engines': [('ka', 150, 1500), ('kareconn', 6, 60), ('ropts', 100, 2000)],
         'rule': 'the real KeepAlive loop over a real BaseClient whose broker answers, ignores (timeout), kills or refuses each PINGREQ as '
                 'scripted, or whose parent context is cancelled during a ping; 0-6 answered pings before the deciding one; plus '
                 'reconnecting-client scenarios (peer answers N pings, goes silent, comes back) checked by the Go oracle only',
@@ -156,7 +157,7 @@ PROPS = {
                         'promptness ("returns promptly") is measured by the correspondence run (5 s budget per predicted return), not proved'],
     },
     'C16': {
-        'engines': [('bc', 400, 4000), ('kareconn', 6, 60), ('servewf', 1, 1)],
+        'engines': [('bc', 400, 4000), ('kareconn', 6, 60), ('servewf', 1, 1), ('ropts', 50, 500)],
         'rule': 'scripts over the base client LTS: API calls (Connect, Publish QoS 1/2, Subscribe, Unsubscribe, Ping, Disconnect) started at scripted points, acknowledgements in a scripted order (own, foreign, wrong-kind, unsolicited, SUBACK with right / wrong count), cancellation of any call, peer close, local Close, malformed packet, write refusal; the thorough tier enumerates every request kind x every step of its exchange x every cause, alone and with 1-4 other blocked calls; non-trivial = at least one call was made',
         'assumptions': ['registration of a waiter and the write of its request are one atomic step (no acknowledgement can precede the request)',
                         'goroutine scheduling and channel semantics of Go are not formalised: each blocking select is modelled by its three exits',
